@@ -50,7 +50,10 @@ class VirtualFile(object):
 
         try:
             cassette_file = CassetteFile(buffer=self.source_file.get_buffer())
-            return cassette_file.list_files(), VirtualFileType.CASSETTE
+            coco_files = cassette_file.list_files()
+            # content that holds no cassette file at all is not a cassette image (an empty file may become one)
+            if coco_files or not self.source_file.get_buffer() or cassette_file.skip_to_sequence([0x55, 0x3C, 0x00]) != -1:
+                return coco_files, VirtualFileType.CASSETTE
         except VirtualFileValidationError as error:
             pass
 
